@@ -143,8 +143,10 @@ PROPS2 = {
         "level": "extract/clear_lowest_set_bit and the four mask_* helpers: the returned expression is evaluated (analyser-side bit-vector semantics) for every "
         "value of widths 1..6 against the documented function; mod_incr / mod_add: per static configuration, for every modulus that selects it, bounded "
         "agreement with the modular result and the masking shortcut only for powers of two; sum/or/and/min/max reduction table (operator, neutral element), "
-        "binary_min polarity, popcount width, clz = ctz of the reversed value, mux polarity and switch_value case order.",
-        "undecided": "numeric results of the recursive helpers (count_trailing_zeros, cyclic_mask, binary_tree_reduce's loop) and widths above 6.",
+        "binary_min polarity, popcount width, mux case table for selectors 0..7 and switch_value case order; count_trailing_zeros / count_leading_zeros "
+        "(through the nested recursive halving function) and cyclic_mask evaluated for every value of widths 1..8 against the documented function.",
+        "undecided": "binary_tree_reduce's while loop (popcount and the sum/or/and reductions are decided up to it: operator, neutral element, operand list); "
+        "widths above the bounds.",
         "technique": T_EVAL,
     },
     "C37": {
